@@ -1,9 +1,101 @@
-"""Delegation-graph part of C09 (filled in with Delegation.tla)."""
+"""Delegation-graph part of C09: Delegation.tla (graph mode) replayed through the real client."""
+import json, os
+import vlib
+from vlib import tlc, make_cfg, vh, workdir, write_ndjson, read_ndjson, log, tla_set
+
+PID = "C09"
+
+
+def model(w, maxedges, invs, tag, roles=("a", "b")):
+    cfg = make_cfg("MC_Deleg_graph.cfg", {"MaxEdges": maxedges, "Roles": tla_set(list(roles)), "Fuel": 8},
+                   os.path.join(w, f"{tag}.cfg"), invariants=invs)
+    return tlc("Delegation", cfg, f"c09-{tag}", workers=6, timeout=900)
+
+
+def judge(v, rows, stats):
+    known = {f["id"] for f in vlib.known_findings().get("findings", [])}
+    for r in rows:
+        c = r["in"]
+        stats["evaluations"] += 1
+        edges = c["edges"]
+        indeg = {}
+        for e in edges:
+            indeg[e["to"]] = indeg.get(e["to"], 0) + 1
+        shared = any(k > 1 for k in indeg.values())
+        cyc = c["why"] == "cycle"
+        if cyc or shared or r["pad"]:
+            stats["nontrivial"].add(json.dumps([edges, r["pad"]]))
+        bad = None
+        if r["res"] == "panic":
+            bad = f"panic while loading: {r['cls']}"
+        elif r["res"] == "timeout" or r["cap"]:
+            bad = f"update cycle does not terminate on its own: {r['nreq']} requests made when the harness stopped it (delegation edges: {[(e['from'], e['to']) for e in edges]})"
+        elif not shared and len(r["reqs"]) > len(edges):
+            bad = f"{len(r['reqs'])} requests for delegated roles, the repository publishes {len(edges)} delegations"
+        elif r["res"] == "err" and c["ok"] and "Maximum size" in r["cls"]:
+            bad = f"legitimate delegated role within the configured limit refused for size: {r['cls']}"
+        if bad:
+            v.violation(bad, r)
+            continue
+        if shared and len(r["reqs"]) > len(edges):
+            if "F13-shared-role-fetched-per-path" in known:
+                v.known("F13-shared-role-fetched-per-path", "a delegated role reachable over several delegation paths is fetched once per path, so the number of requests is bounded by the number of paths, not of delegations")
+            else:
+                v.violation(f"{len(r['reqs'])} requests for {len(edges)} delegations (shared roles)", r)
+                continue
+        exp_ok = c["ok"]
+        if (r["res"] == "ok") != exp_ok or (exp_ok and r["reqs"] != c["reqs"]):
+            v.note_drift(f"edges {[(e['from'], e['to']) for e in edges]}: model ok={c['ok']} ({c['why']}) reqs={c['reqs']}, code {r['res']} ({r['cls'][:100]}) reqs={r['reqs']}")
 
 
 def run_into(v, cov, tier, seed):
-    cov["delegation_graphs"] = "not yet built"
+    w = workdir("c09")
+    me = 4 if tier == "thorough" else 3
+    mc = model(w, me, ["Terminates", "RequestsBoundedByEdges"], "dg-check")
+    if not mc.ok:
+        raise vlib.ToolError("Delegation.tla (graph mode) violates its invariants:\n" + mc.violation[-2000:])
+    gen = model(w, me, ["Emit"], "dg-gen")
+    cases = gen.replays
+    # layered diamonds: roles shared by several delegation paths
+    lroles = [f"l{k}{x}" for k in (1, 2, 3) for x in "xy"]
+    cfg = make_cfg("MC_Deleg_graph.cfg", {"Mode": '"layered"', "MaxEdges": 3, "Roles": tla_set(lroles), "Fuel": 8},
+                   os.path.join(w, "dg-layered.cfg"), invariants=["Terminates", "Emit"])
+    lg = tlc("Delegation", cfg, "c09-dg-layered", workers=2, timeout=600)
+    if not lg.ok:
+        raise vlib.ToolError("Delegation.tla (layered) failed:\n" + (lg.violation or "")[-1500:])
+    cases = cases + lg.replays
+    cp = os.path.join(w, "dg-cases.ndjson")
+    write_ndjson(cp, cases)
+    stats = {"evaluations": 0, "nontrivial": set()}
+    samples = []
+    for pad in (0, 3):
+        out = os.path.join(w, f"dg-out-{pad}.ndjson")
+        vh(["deleg", "--cases", cp, "--mode", "graph", "--pad", str(pad), "--out", out], timeout=3000)
+        rows = read_ndjson(out)
+        judge(v, rows, stats)
+        samples += [{"edges": [(e["from"], e["to"]) for e in r["in"]["edges"]], "delegated_files_padded_x": pad,
+                     "model": {"ok": r["in"]["ok"], "why": r["in"]["why"]}, "observed": {k: r[k] for k in ("res", "reqs", "nreq")}}
+                    for r in rows[len(rows) // 2: len(rows) // 2 + 2]]
+    cov["states"] += mc.distinct
+    cov["transitions"] += mc.generated
+    cov["traces_validated_against_impl"] += stats["evaluations"]
+    cov["evaluations"] += stats["evaluations"]
+    cov["distinct_nontrivial"] += len(stats["nontrivial"])
+    cov["samples"] += samples[:3]
+    cov["delegation_graphs"] = {"graphs": len(cases), "max_edges": me,
+                                "rule": "every list of up to MaxEdges distinct delegation edges over {targets, a, b} (self-delegation, mutual delegation, shared roles), each loaded with delegated role files of normal size and padded to 3x the size of targets.json"}
 
 
 def replay(path, seed):
-    return 0
+    rp = json.load(open(path))["replay"]
+    w = workdir("c09")
+    cp = os.path.join(w, "dg-replay.ndjson")
+    write_ndjson(cp, [rp["in"]])
+    out = os.path.join(w, "dg-replay-out.ndjson")
+    vh(["deleg", "--cases", cp, "--mode", "graph", "--pad", str(rp["pad"]), "--out", out])
+    v = vlib.Verdict(PID, "quick", seed)
+    judge(v, read_ndjson(out), {"evaluations": 0, "nontrivial": set()})
+    for what, r in v.violations:
+        log(f"VIOLATION property={PID} replay={path}")
+        log("  " + what)
+    return 1 if v.violations else 0
